@@ -7,7 +7,7 @@ CASES = {'quick': 1500, 'thorough': 40000}
 GATES = {
     'quick': {'evaluations': 30000, 'getter_checks': 25000, 'setter_checks': 3000, 'chained_setter_checks': 3000, 'setter_nonempty_readback': 1500,
               'model_next_to_zero_width': 2000, 'classes_checked': 25, 'setter_crlf': 150,
-              'runs_split_by_zero_width_token': 100, 'post_write_neighbour_sweeps': 80},
+              'runs_split_by_zero_width_token': 100, 'post_write_neighbour_sweeps': 60},
     'thorough': {'evaluations': 800000, 'classes_checked': 30},
 }
 SPACINGS = ['', ' ', '\n', '\r\n', '  \t', '\n\n', ' \n\t \n', '\t', '    ', '\r\n\r\n', ' \r\n ', '\n ']
